@@ -97,6 +97,12 @@ json observe(S &s) {
 std::string doStep(S &s, const json &st, long k) {
     std::string a = st["a"]; long i = st["i"]; const json &v = st["v"];
     long x = v["x"], y = v["y"], z = v["z"], w = v["w"];
+    // the deprecated create*Dimension(index, ...) entry points (the index is ignored: they append) take their turn where their
+    // arguments can express the call (no label / unit / offset arguments)
+    if (a == "AppendSet" && x == 0 && k % 3 == 2) return outcome([&] { s.a.createSetDimension((nix::ndsize_t) (s.a.dimensionCount() + 1)); });
+    if (a == "AppendSampled" && y == 0 && z == 0 && w == 0 && k % 2 == 1) return outcome([&] { s.a.createSampledDimension((nix::ndsize_t) (s.a.dimensionCount() + 1), intervalOf(x)); });
+    if (a == "AppendRange" && y == 0 && z == 0 && k % 2 == 1) return outcome([&] { s.a.createRangeDimension((nix::ndsize_t) (s.a.dimensionCount() + 1), ticksOf(x)); });
+    if (a == "AppendAlias" && k % 2 == 1) return outcome([&] { s.a.createAliasRangeDimension(); });
     if (a == "AppendSet") return outcome([&] { s.a.appendSetDimension(labelsOf(x)); });
     if (a == "AppendSampled") return outcome([&] { s.a.appendSampledDimension(intervalOf(x), labelOf(y), unitOf(z), offsetOf(w)); });
     if (a == "AppendRange") return outcome([&] { s.a.appendRangeDimension(ticksOf(x), labelOf(y), unitOf(z)); });
